@@ -362,7 +362,11 @@ class MultitaskMultivariateNormal(MultivariateNormal):
                 # A block of the reversely interleaved covariance matrix
                 row_idx = _normalize_slice(row_idx, num_rows)
                 col_idx = _normalize_index(col_idx, num_cols)
-                new_slice = slice(row_idx.start + col_idx, row_idx.stop * num_cols + col_idx, row_idx.step * num_cols)
+                new_slice = slice(
+                    row_idx.start * num_cols + col_idx,
+                    row_idx.stop * num_cols + col_idx,
+                    row_idx.step * num_cols,
+                )
                 new_cov = self.lazy_covariance_matrix[batch_idx + (new_slice, new_slice)]
                 return MultivariateNormal(mean=new_mean, covariance_matrix=new_cov)
             elif (
@@ -381,8 +385,12 @@ class MultitaskMultivariateNormal(MultivariateNormal):
                 # slice x slice or indices x slice or slice x indices
                 if isinstance(row_idx, slice):
                     row_idx = torch.arange(num_rows)[row_idx]
+                else:
+                    row_idx = _normalize_index_tensor(row_idx, num_rows)
                 if isinstance(col_idx, slice):
                     col_idx = torch.arange(num_cols)[col_idx]
+                else:
+                    col_idx = _normalize_index_tensor(col_idx, num_cols)
                 row_grid, col_grid = torch.meshgrid(row_idx, col_idx, indexing="ij")
                 indices = (row_grid * num_cols + col_grid).reshape(-1)
                 new_cov = self.lazy_covariance_matrix[batch_idx + (indices,)][..., indices]
@@ -391,6 +399,8 @@ class MultitaskMultivariateNormal(MultivariateNormal):
                 )
             else:
                 # row_idx and col_idx have pairs of indices
+                row_idx = _normalize_index_tensor(row_idx, num_rows)
+                col_idx = _normalize_index_tensor(col_idx, num_cols)
                 indices = row_idx * num_cols + col_idx
                 new_cov = self.lazy_covariance_matrix[batch_idx + (indices,)][..., indices]
                 return MultivariateNormal(
@@ -409,18 +419,15 @@ def _normalize_index(i: int, dim_size: int) -> int:
         return i
 
 
+def _normalize_index_tensor(i, dim_size: int) -> torch.Tensor:
+    # Index tensors (or sequences / ints combined with them): negative entries count from the end
+    i = torch.as_tensor(i)
+    if i.dtype == torch.bool or i.dim() > 1:
+        raise IndexError("MultitaskMultivariateNormal only supports integer index tensors with at most one dimension")
+    return torch.where(i < 0, i + dim_size, i)
+
+
 def _normalize_slice(s: slice, dim_size: int) -> slice:
-    start = s.start
-    if start is None:
-        start = 0
-    elif start < 0:
-        start = dim_size + start
-    stop = s.stop
-    if stop is None:
-        stop = dim_size
-    elif stop < 0:
-        stop = dim_size + stop
-    step = s.step
-    if step is None:
-        step = 1
+    # Clamp and wrap start / stop exactly as indexing a sequence of length dim_size does
+    start, stop, step = s.indices(dim_size)
     return slice(start, stop, step)
